@@ -766,7 +766,7 @@ def bounded_reach_probe(unit, cfgname, workdir):
     inc = '-I%s -I%s' % (os.path.join(HERE, 'shim'), os.path.join(VERIF, 'contracts', 'lib'))
     qdefs = ' '.join(E.shlex.quote(d) for d in cfg.get('defs', '').split())
     cmd = 'cbmc %s %s %s --function bharness --nondet-static --unwind %s --no-unwinding-assertions --property bharness.assertion.%s -DVERIF_BOUNDED=1 %s' % (
-        inc, qdefs, cfile, cfg.get('unwind', str(bd.bound + 2)), '%d', E.SOLVERS.get(cfg.get('solver', 'sat'), ''))
+        inc, qdefs, cfile, (cfg.get('unwind_thorough') if ('unwind_thorough' in cfg and str(bd.bound) == str(cfg.get('bound_thorough', ''))) else cfg.get('unwind', str(bd.bound + 2))), '%d', E.SOLVERS.get(cfg.get('solver', 'sat'), ''))
     # the reach assertion is the last assertion of bharness
     n = csrc[csrc.index('void bharness'):].count('__CPROVER_assert(')
     rc, out, err, dt = E.sh(cmd % n, int(cfg.get('timeout', '300')))
